@@ -42,6 +42,8 @@ func runC03(c *an.Ctx) {
 	c.As(map[string]string{"R10e": "R03o"}, func() { r10e(c) })
 	c.As(map[string]string{"R11h": "R03p"}, func() { r11h(c) })
 	c.As(map[string]string{"R11i": "R03q"}, func() { r11i(c) })
+	// round 8
+	c.As(map[string]string{"R10b": "R03r", "R10c": "R03s"}, func() { r10bc(c) })
 }
 
 // constsLeadingTo: TaskState/other enum constants k such that an `x == k` test's true edge leads into (dominates) target's block.
